@@ -136,11 +136,13 @@ def demoOutAt (c : Rat) : C12.Output :=
 
 theorem demo_quantifyQ : C12.quantify demoQRows demoGroups (1/100) demoIbaq = .ok (demoOutAt (1/2)) := by
   have hS : C12.silacChannels (C12.nSilac demoQRows) = .ok 0 := by decide +kernel
+  have hq : C12.quantifyWith 0 demoQRows demoGroups (1/100) demoIbaq = demoOutAt (1/2) := by
+    show demoOutAt (C12.cutoffOf demoQRows demoGroups (1/100)) = _
+    rw [demo_cutoffQ]
+  have hl : C12.layoutError 0 (demoOutAt (1/2)) = none := by decide +kernel
   unfold C12.quantify
   rw [hS]
-  simp only [Except.ok.injEq]
-  show demoOutAt (C12.cutoffOf demoQRows demoGroups (1/100)) = _
-  rw [demo_cutoffQ]
+  simp only [hq, C12.checked, hl]
 
 def demoLines : List QLine :=
   quantLines (Pipeline.demoRows (1/2) 1) (C12.keptIdx demoQRows demoGroups) (demoOutAt (1/2)).groups
@@ -202,8 +204,12 @@ theorem demo_quant_run : ∃ t, quantRun demoQ = .ok [t] ∧ t.quant = some demo
   simp only [loopQ, hm]
   rfl
 
-/-- the hypotheses of the theorems hold for it: uniform SILAC columns -/
-theorem demo_uniform : ∀ r ∈ C12.parsed demoPart.rows, (r.silac.length : Int) = C12.nSilac demoPart.rows := by
+/-- the hypotheses of the theorems hold for it: uniform SILAC columns (no row has more than the first one) … -/
+theorem demo_uniform : ∀ r ∈ C12.parsed demoPart.rows, (r.silac.length : Int) ≤ C12.nSilac demoPart.rows := by
+  decide +kernel
+
+/-- … and uniform reporter columns (none) -/
+theorem demo_uniform_tmt : ∀ r ∈ C12.parsed demoPart.rows, (r.tmt.length : Int) = 3 * C12.nTmt demoPart.rows := by
   decide +kernel
 
 /-- what the table says: both reported rows are written; the row of `A` sums PEPA over E1 (100 + 11; the charge-3
